@@ -275,17 +275,12 @@ func (c *Client) BlockchainInfo(ctx context.Context, minHeight, maxHeight int64)
 		}
 	}
 
-	// Update the light client if we're behind.
-	if len(res.BlockMetas) > 0 {
-		lastHeight := res.BlockMetas[len(res.BlockMetas)-1].Header.Height
-		if _, err := c.updateLightClientIfNeededTo(ctx, &lastHeight); err != nil {
-			return nil, err
-		}
-	}
-
-	// Verify each of the BlockMetas.
+	// Verify each of the BlockMetas against a light block verified for its
+	// own height (the metas come highest height first; heights the light
+	// client has not visited yet are verified on demand).
 	for _, meta := range res.BlockMetas {
-		h, err := c.lc.TrustedLightBlock(meta.Header.Height)
+		height := meta.Header.Height
+		h, err := c.updateLightClientIfNeededTo(ctx, &height)
 		if err != nil {
 			return nil, fmt.Errorf("trusted header %d: %w", meta.Header.Height, err)
 		}
